@@ -205,12 +205,47 @@ func runC03(c *core.Ctx) {
 	c.Check(selOK, "R3.1", "orcas.(*LockedOrca)."+selector.Name()+"#kind-by-flag", c.P.Pos(selector.Pos()), "returns the shared table's locker only when its flag is true, the exclusive one otherwise", strings.Join(selWhy, "; "))
 	// bucket = hash(key) & (len-1)
 	hashOK := false
+	nWrites := 0
+	var writeIns ssa.Instruction
+	var hasher ssa.Value
 	ssax.Instrs(selector, func(ins ssa.Instruction) {
 		cc := ssax.CallOf(ins)
-		if cc != nil && cc.IsInvoke() && cc.Method.Name() == "Write" && len(cc.Args) == 1 && ssax.Unwrap(cc.Args[0]) == ssa.Value(keyP) {
-			hashOK = true
+		if cc != nil && cc.IsInvoke() && cc.Method.Name() == "Write" {
+			nWrites++
+			if len(cc.Args) == 1 && ssax.Unwrap(cc.Args[0]) == ssa.Value(keyP) {
+				hashOK = true
+				writeIns, hasher = ins, cc.Value
+			}
 		}
 	})
+	if nWrites != 1 {
+		hashOK = false
+	}
+	// the hasher is pooled: it must be reset after it was taken from the pool and before the key is written,
+	// otherwise the bucket depends on the keys hashed before
+	if hashOK {
+		fresh := false
+		for _, d := range ssax.Defs(hasher) {
+			if ta, ok := d.(*ssa.TypeAssert); ok {
+				d = ta.X
+			}
+			if call, ok := d.(*ssa.Call); ok && ssax.CalleeName(&call.Call) != "(*sync.Pool).Get" {
+				fresh = true // created for this call
+			}
+		}
+		reset := false
+		ssax.Instrs(selector, func(ins ssa.Instruction) {
+			cc := ssax.CallOf(ins)
+			if cc != nil && cc.IsInvoke() && cc.Method.Name() == "Reset" && cc.Value == hasher {
+				if _, isDefer := ins.(*ssa.Defer); !isDefer && ins.Block().Dominates(writeIns.Block()) && (ins.Block() != writeIns.Block() || ssax.IndexIn(ins) < ssax.IndexIn(writeIns)) {
+					reset = true
+				}
+			}
+		})
+		if !fresh && !reset {
+			hashOK = false
+		}
+	}
 	maskOK := len(bucketVals) > 0
 	for _, b := range bucketVals {
 		ok := false
@@ -238,7 +273,7 @@ func runC03(c *core.Ctx) {
 		}
 	}
 	c.Check(hashOK && maskOK, "R3.2", "orcas.(*LockedOrca)."+selector.Name()+"#bucket", c.P.Pos(selector.Pos()), "bucket = hash(key) & (len(table)-1) of exactly the key passed in",
-		fmt.Sprintf("the lock bucket is not hash(key) & (len-1) of the selector's key (hashes the key: %v, masked hash of it: %v): two commands on one key may take different locks", hashOK, maskOK))
+		fmt.Sprintf("the lock bucket is not hash(key) & (len-1) of the selector's key (hashes exactly the key with a reset hasher: %v, masked hash of it: %v): two commands on one key may take different locks", hashOK, maskOK))
 
 	// ---- call sites
 	for _, m := range orcaMethods(c) {
